@@ -1,19 +1,19 @@
-\* C12 emission A: every edge of the one-context graph (Repaired as detected by the check).
+\* C12 emission C: every edge of the once-handle graph (one context, every mode).
 CONSTANTS
   Ctxs <- Ctx1
   Modes = {"plain", "mw", "fresh"}
-  Scripts = {"s1", "s2"}
-  Classes = {"k1", "k2"}
+  Scripts = {"s1"}
+  Classes = {"k1"}
   BlockHandles = {"h1", "h2"}
-  ZeroHandles = {}
+  ZeroHandles = {"z1", "z2"}
   FixedHandles = {"g1"}
   RegSeq <- RegK1
-  OnSeqs <- OnSeqsFull
-  ClassExprs <- ClassExprsFull
+  OnSeqs <- OnSeqsCore
+  ClassExprs <- ClassExprsCore
   Repaired = {}
   Variant = "asCoded"
-  NonceCtxs = {"c1"}
-  MaxNonces = 1
+  NonceCtxs = {}
+  MaxNonces = 0
   MaxSteps = 99
   EmitEdges = TRUE
 INIT Init
